@@ -257,8 +257,12 @@ func checkCase(t stats.TB, part string, c *evmgen.Case, o *evmgen.Outcome) *case
 	cr.label("mode:" + c.Mode)
 	cr.label("tx:" + c.Tx.Kind)
 	if o.Broken != "" {
-		cr.fps = append(cr.fps, "C05/post-state-unhashable")
-		stats.Violation(t, part, "C05/post-state-unhashable", "the post-state cannot be hashed: "+o.Broken+" (an account was debited below zero)", dump(c, o, nil))
+		fp := "C05/post-state-unhashable"
+		if evmgen.BrokenBySuicideSize(o.Broken) {
+			fp = evmgen.FpSuicideSize // crash form of the recorded C12 finding, not a debit below zero
+		}
+		cr.fps = append(cr.fps, fp)
+		stats.Violation(t, part, fp, "the post-state cannot be hashed: "+o.Broken, dump(c, o, nil))
 		return cr
 	}
 	if res.Err != nil {
